@@ -21,6 +21,7 @@ from typing import Dict, List, Optional, Set, Tuple
 
 from .report import Ctx
 from .srcmodel import AnalysisError, FuncNode, call_leaf, call_name, calls_in, const_str, contains, dotted, enclosing_function, get_kwarg, loc, qualname, src, walk_local
+from .util import body_raises as _body_raises, branch_when as _branch_when, strip_not as _strip
 from .util import enclosing_trys, enclosing_withs, exc_expr_names, guard_chain, handler_type_names, root_name
 
 PARSE_ENTRIES = ["parse_args", "parse_object", "parse_env", "parse_string", "parse_path"]
@@ -570,6 +571,100 @@ def run(ctx: Ctx) -> int:
                 ok = not dyn
                 ctx.oblige("C03.R7", ok, n_, "the %-format template is a literal" if ok else f"`{src(n_, 70)}` builds its %-format template from run-time text ({ast.unparse(dyn[0])[:30]}): a `%` in that text (a value like 50%) makes the formatting itself raise TypeError / ValueError - the error report turns into a foreign exception", fn=fn)
     ctx.floor("C03.R7-percent-formats", n_fmt, 1)
+
+    # ---------------- R8: evaluators of annotation / source text run under a catch-all --------------------------------
+    # get_type_hints / exec evaluate text written by whoever wrote the class or function an import path names: the
+    # failure can be of ANY type (NameError, SyntaxError for a free-text annotation, TypeError, a failing import ...).
+    # Every call is inside `try ... except Exception` / `with suppress(Exception)`, or its function is one of the two
+    # reviewed propagators whose callers are themselves checked as evaluators.
+    from .util import guard_atoms
+
+    EVALUATORS = {"get_type_hints", "exec", "eval"}
+    PROPAGATORS = {
+        "_postponed_annotations:get_arg_type": "re-raises NameError with the alias failure as cause; every caller evaluates it under except Exception",
+        "_postponed_annotations:get_types": "collects failures per name and raises when nothing could be evaluated; evaluate_postponed_annotations and the stub resolver call it under except Exception",
+    }
+    eval_leaves = set(EVALUATORS) | {q.split(":")[1] for q in PROPAGATORS}
+
+    def _catch_all(call: ast.Call, fn) -> bool:
+        for t, part in enclosing_trys(call):
+            if part == "body" and any(set(handler_type_names(h)) & {"Exception", "BaseException"} for h in t.handlers):
+                return True
+        for _w, it in enclosing_withs(call, fn):
+            ce = it.context_expr
+            if isinstance(ce, ast.Call) and call_leaf(ce) == "suppress" and any(isinstance(a, ast.Name) and a.id in ("Exception", "BaseException") for a in ce.args):
+                return True
+        return False
+
+    n_eval = 0
+    for fq, fn in list(repo.all_funcs()):
+        if fq.startswith(("_deprecated:",)):
+            continue
+        for c in calls_in(fn):
+            if not (isinstance(c.func, ast.Name) and c.func.id in eval_leaves):
+                continue
+            if enclosing_function(c) is not fn:
+                continue
+            n_eval += 1
+            if fq in PROPAGATORS:
+                ctx.oblige("C03.R8", True, c, f"reviewed propagator: {PROPAGATORS[fq]}", fn=fn)
+                continue
+            ok = _catch_all(c, fn)
+            ctx.oblige("C03.R8", ok, c, "evaluation of annotation / source text runs under a catch-all handler" if ok else f"`{src(c, 60)}` evaluates annotation or source text of a user-named component without a catch-all handler: a free-text annotation (-> \"a Calendar instance\") raises SyntaxError, which no parse method converts", fn=fn)
+    ctx.floor("C03.R8-evaluator-sites", n_eval, 8)
+
+    # ---------------- R9: what a config file delivers is a dict before it is applied ----------------------------------
+    # (1) _load_config_parser_mode: between the LAST assignment of the loaded object and _apply_actions lies the
+    #     `not isinstance(.., dict) -> raise` check (selecting the `key` section counts as an assignment)
+    lcp = ctx.func("_core:ArgumentParser._load_config_parser_mode")
+    glc = ctx.cfg(lcp)
+    appl = [c for c in calls_in(lcp) if call_leaf(c) == "_apply_actions"]
+    ctx.need(len(appl) == 1 and appl[0].args and isinstance(appl[0].args[0], ast.Name), "_load_config_parser_mode: return self._apply_actions(<loaded>, ...)")
+    lv = appl[0].args[0].id
+    checks_ = [
+        i for i in walk_local(lcp)
+        if isinstance(i, ast.If) and (lambda t: isinstance(t[0], ast.Call) and call_leaf(t[0]) == "isinstance" and isinstance(t[0].args[0], ast.Name) and t[0].args[0].id == lv and ast.unparse(t[0].args[1]) == "dict")(_strip(i.test)) and _body_raises(_branch_when(i, False), ctx.noreturn)
+    ]
+    ctx.need(checks_, f"_load_config_parser_mode: if not isinstance({lv}, dict): raise")
+    defs_ = [s for s in walk_local(lcp) if isinstance(s, ast.Assign) and any(isinstance(t, ast.Name) and t.id == lv for t in s.targets)]
+    via_ = glc.cn([i.test for i in checks_])
+    for d in defs_:
+        ok = glc.must_pass(via_, glc.cn(d), glc.cn(appl), strict=True)
+        ctx.oblige("C03.R9", ok, d, f"`{src(d, 50)}` is followed by the dict check before the config is applied" if ok else f"after `{src(d, 60)}` the object reaches _apply_actions without the `isinstance(.., dict)` check: a default config file whose sub-command section is a scalar or a list (fit: 3) leaks AttributeError from every parse method", fn=lcp)
+    # (2) _apply_actions: a sub-command's settings are stored only if they are a Namespace (F39: `{"fit": 3}` was kept
+    #     as is and the first .clone() on it raised AttributeError)
+    apa = ctx.func("_core:ArgumentParser._apply_actions")
+    arms = [i for i in walk_local(apa) if isinstance(i, ast.If) and "_ActionSubCommands" in ast.unparse(i.test) and "None" in ast.unparse(i.test)]
+    ctx.need(len(arms) == 1, "_apply_actions: `if action is None or isinstance(action, _ActionSubCommands):` arm")
+    arm = arms[0]
+    raises_ = [r for s in arm.body for r in ast.walk(s) if isinstance(r, ast.Raise)]
+    good = []
+    for r in raises_:
+        at = guard_atoms(r, stop=arm)
+        at = [(t, p) for t, p in at if t is not arm.test]
+        neg_ns = [1 for t, p in at if not p and isinstance(t, ast.Call) and call_leaf(t) == "isinstance" and ast.unparse(t.args[1]) == "Namespace"]
+        other = [ast.unparse(t) for t, p in at if not (isinstance(t, ast.Call) and call_leaf(t) == "isinstance") and not (isinstance(t, ast.Compare) and ("dest" in ast.unparse(t) or ast.unparse(t).startswith("action is")))]
+        if neg_ns and not other:
+            good.append(r)
+    ok = bool(good)
+    ctx.oblige("C03.R9", ok, good[0] if good else arm, "settings of a sub-command that are not a Namespace are rejected where configs are applied" if ok else "the pass-through arm of _apply_actions stores whatever value a config gives under a sub-command's name: {\"fit\": 3} is kept and the first .clone() on it (sub-command action, merge_config, validate) raises AttributeError out of every parse method", fn=apa, construct="sub-command settings are a Namespace")
+
+    # ---------------- R10: switches read from the environment are compared case-insensitively -------------------------
+    n_envsw = 0
+    for fq, fn in list(repo.all_funcs()):
+        for n_ in walk_local(fn):
+            if not (isinstance(n_, ast.Compare) and len(n_.ops) == 1 and isinstance(n_.ops[0], (ast.In, ast.NotIn)) and isinstance(n_.comparators[0], (ast.Set, ast.Tuple, ast.List))):
+                continue
+            lits = [const_str(e) for e in n_.comparators[0].elts]
+            if not lits or any(l is None for l in lits) or not any(l.isalpha() for l in lits) or any(l != l.lower() for l in lits):
+                continue
+            left = n_.left
+            if not any(isinstance(c, ast.Call) and (call_leaf(c) == "getenv" or "environ" in ast.unparse(c.func)) for c in ast.walk(left)):
+                continue
+            n_envsw += 1
+            ok = isinstance(left, ast.Call) and call_leaf(left) in ("lower", "casefold")
+            ctx.oblige("C03.R10", ok, n_, "environment switch is lower-cased before it is compared with the lower-case table" if ok else f"`{src(n_, 70)}` compares the raw environment text with a lower-case table: JSONARGPARSE_DEBUG=False counts as debug-on - every failure raises instead of printing usage and exiting with status 2", fn=fn)
+    ctx.floor("C03.R10-env-switches", n_envsw, 1)
 
     # ---------------- R6: exception flow for two families of user-data failures --------------------------
     # (E6, path-precise: a leak is an origin reachable from a parse entry along call sites none of which lies
